@@ -15,7 +15,9 @@ import (
 	"go/token"
 	"os"
 	"path/filepath"
+	"sort"
 	"strconv"
+	"strings"
 )
 
 func die(f string, a ...any) {
@@ -145,6 +147,143 @@ func execBlocks(f *ast.File) (blocks bool, found bool) {
 	return false, false
 }
 
+// ---------------------------------------------------------------- task structure of the router (C18 Async model)
+
+// fnFact: what one router method does with the router mutex and with goroutines.
+type fnFact struct {
+	name   string
+	locks  bool       // takes dv.mutex itself (outside the goroutines it spawns)
+	calls  []string   // router methods it calls directly (sorted, unique)
+	spawns [][]string // per `go` statement: the router methods the new goroutine calls (sorted, unique)
+	incs   []string   // router fields it increments
+}
+
+func recvIsRouter(e ast.Expr, recv string) bool {
+	id, ok := e.(*ast.Ident)
+	return ok && id.Name == recv
+}
+
+func uniqSorted(xs []string) []string {
+	sort.Strings(xs)
+	var out []string
+	for i, x := range xs {
+		if i == 0 || x != xs[i-1] {
+			out = append(out, x)
+		}
+	}
+	return out
+}
+
+// router methods called anywhere below n (receiver identifier recv), not descending into `go` statements
+func routerCalls(n ast.Node, recv string, intoGo bool, locks *bool, incs *[]string, spawns *[][]string) []string {
+	var calls []string
+	ast.Inspect(n, func(x ast.Node) bool {
+		switch v := x.(type) {
+		case *ast.GoStmt:
+			if intoGo {
+				return true
+			}
+			var g []string
+			if sel, ok := v.Call.Fun.(*ast.SelectorExpr); ok && recvIsRouter(sel.X, recv) {
+				g = []string{sel.Sel.Name}
+			} else if fl, ok := v.Call.Fun.(*ast.FuncLit); ok {
+				var l bool
+				var i []string
+				g = routerCalls(fl.Body, recv, true, &l, &i, nil)
+			}
+			if spawns != nil {
+				*spawns = append(*spawns, uniqSorted(g))
+			}
+			return false
+		case *ast.CallExpr:
+			if sel, ok := v.Fun.(*ast.SelectorExpr); ok {
+				if recvIsRouter(sel.X, recv) {
+					calls = append(calls, sel.Sel.Name)
+				}
+				if inner, ok := sel.X.(*ast.SelectorExpr); ok && recvIsRouter(inner.X, recv) && inner.Sel.Name == "mutex" && sel.Sel.Name == "Lock" {
+					*locks = true
+				}
+			}
+		case *ast.IncDecStmt:
+			if v.Tok == token.INC {
+				if sel, ok := v.X.(*ast.SelectorExpr); ok && recvIsRouter(sel.X, recv) {
+					*incs = append(*incs, sel.Sel.Name)
+				}
+			}
+		}
+		return true
+	})
+	return calls
+}
+
+func asyncFacts(repo string, want []string) []fnFact {
+	dir := filepath.Join(repo, "dv/dv")
+	ents, err := os.ReadDir(dir)
+	if err != nil {
+		die("%v", err)
+	}
+	found := map[string]fnFact{}
+	for _, e := range ents {
+		n := e.Name()
+		if !strings.HasSuffix(n, ".go") || strings.HasSuffix(n, "_test.go") || strings.HasPrefix(n, "verif_hooks") {
+			continue
+		}
+		f := parse(filepath.Join(dir, n))
+		for _, d := range f.Decls {
+			fd, ok := d.(*ast.FuncDecl)
+			if !ok || fd.Body == nil || fd.Recv == nil || len(fd.Recv.List) != 1 || len(fd.Recv.List[0].Names) != 1 {
+				continue
+			}
+			recv := fd.Recv.List[0].Names[0].Name
+			ff := fnFact{name: fd.Name.Name}
+			ff.calls = uniqSorted(routerCalls(fd.Body, recv, false, &ff.locks, &ff.incs, &ff.spawns))
+			ff.incs = uniqSorted(ff.incs)
+			sort.Slice(ff.spawns, func(i, j int) bool { return strings.Join(ff.spawns[i], ",") < strings.Join(ff.spawns[j], ",") })
+			found[ff.name] = ff
+		}
+	}
+	var out []fnFact
+	for _, w := range want {
+		ff, ok := found[w]
+		if !ok {
+			die("dv/dv: router method %s not found (the task-level model of the advertisement machinery names it)", w)
+		}
+		out = append(out, ff)
+	}
+	return out
+}
+
+func leanStrList(xs []string) string {
+	q := make([]string, len(xs))
+	for i, x := range xs {
+		q[i] = strconv.Quote(x)
+	}
+	return "[" + strings.Join(q, ", ") + "]"
+}
+
+func leanAsyncFacts(fs []fnFact) string {
+	var sb strings.Builder
+	sb.WriteString("-- GENERATED by harness/cmd/dvgen from dv/dv/*.go (go/ast) — do not edit\n")
+	sb.WriteString("namespace Ndn.Gen.C18Async\n\n")
+	sb.WriteString("/-- what one router method does with `dv.mutex` and with goroutines: takes the mutex itself; router methods it\n")
+	sb.WriteString("    calls directly; per `go` statement the router methods the spawned goroutine calls; router fields it increments -/\n")
+	sb.WriteString("structure Fn where\n  name : String\n  locks : Bool\n  calls : List String\n  spawns : List (List String)\n  incs : List String\nderiving DecidableEq, Repr\n\n")
+	sb.WriteString("def facts : List Fn := [\n")
+	for i, f := range fs {
+		var sp []string
+		for _, g := range f.spawns {
+			sp = append(sp, leanStrList(g))
+		}
+		fmt.Fprintf(&sb, "  { name := %q, locks := %v, calls := %s, spawns := [%s], incs := %s }", f.name, f.locks, leanStrList(f.calls), strings.Join(sp, ", "), leanStrList(f.incs))
+		if i+1 < len(fs) {
+			sb.WriteString(",")
+		}
+		sb.WriteString("\n")
+	}
+	sb.WriteString("]\n\nend Ndn.Gen.C18Async\n")
+	return sb.String()
+}
+
 func writeIfChanged(path, content string) {
 	old, err := os.ReadFile(path)
 	if err == nil && string(old) == content {
@@ -173,6 +312,9 @@ func main() {
 		writeIfChanged(filepath.Join(verif, "lean/NdnVerif/Gen/C18Consts.lean"), fmt.Sprintf(
 			"-- GENERATED by harness/cmd/dvgen from dv/config/config.go — do not edit\n"+
 				"namespace Ndn.Gen.C18\n\n/-- `config.CostInfinity` -/\ndef costInfinity : Nat := %d\n\nend Ndn.Gen.C18\n", inf))
+		writeIfChanged(filepath.Join(verif, "lean/NdnVerif/Gen/C18Async.lean"), leanAsyncFacts(asyncFacts(repo, []string{
+			"ribUpdate", "checkDeadNeighbors", "fibUpdate", "advertSyncNotifyNew", "advertSyncSendInterest",
+			"advertSyncOnInterest", "advertDataFetch", "advertDataOnInterest", "advertDataHandler"})))
 	case "c19":
 		pt := parse(filepath.Join(repo, "dv/table/prefix_table.go"))
 		ps := parse(filepath.Join(repo, "dv/dv/prefix_sync.go"))
